@@ -68,7 +68,16 @@ CoreFailed(sc, r, Cs, core) ==
            to be a well-formed span covering the group, and it may swallow further groups *)
         target == base \cup (cands \cap GenesInside(sc, core))
         big == R.circ /\ 2 * ShortestCoverLen(R, FootprintOfAll(R, LocsOf(sc, target))) >= R.L
-    IN  IF big
+        (* ... but one plain case is decided even then (since round 7): a single group of a rule without extenders that does
+           not close on itself around the ring (a stretch of at least the cutoff is left uncovered) has one smallest span,
+           the one leaving that stretch out, however long the group is; a core running the other way round would take in
+           genes that belong to no group of the rule (defect P31, repaired) *)
+        closed == R.circ /\ R.L - ShortestCoverLen(R, FootprintOfAll(R, LocsOf(sc, base))) < r.cutoff
+        plain == ~r.hasExt /\ Cardinality(Cs) = 1 /\ ~closed
+    IN  IF big /\ plain
+        THEN (IF SmallestSpanClause(R, LocsOf(sc, base), core) # "ok"
+              THEN {"core_is_smallest_span_of_group:" \o SmallestSpanClause(R, LocsOf(sc, base), core)} ELSE {})
+        ELSE IF big
         THEN (IF WellFormed(R, core) /\ IsSpan(R, core) THEN {} ELSE {"core_well_formed_span"})
         ELSE IF ~r.hasExt
         (* one chain per protocluster - except that chains whose stretches of record overlap although their genes are not
